@@ -94,10 +94,17 @@ def mk_class(c, info, W):
             self.toUpper(o)
 
     ns = {"__init__": init, "send": send, "receive": receive, "CID": c}
-    if info["kind"] == "A":
-        ns["onEvent"] = seen                      # overrides YowLayer.onEvent: sees every event
+    handler = {}
+    if info["kind"] in ("A", "a"):
+        handler["onEvent"] = seen                      # overrides YowLayer.onEvent: sees every event
     else:
-        ns["on_c18"] = EventCallback(EV)(seen)    # goes through YowLayer.onEvent's name dispatch
+        handler["on_c18"] = EventCallback(EV)(seen)    # goes through YowLayer.onEvent's name dispatch
+    if info["kind"] in ("a", "b"):
+        # the handler is INHERITED from a base class (as AxolotlBaseLayer's callbacks are by the three axolotl
+        # layers): the layer class itself defines neither onEvent nor a callback
+        base = type("RB%d" % c, (YowLayer,), handler)
+        return type("R%d" % c, (base,), ns)
+    ns.update(handler)
     return type("R%d" % c, (YowLayer,), ns)
 
 
@@ -331,7 +338,7 @@ def visible(case, name, tags):
     """kind-B recorders hear only events named EV (YowLayer.onEvent's dispatch by name)"""
     if name == EV:
         return list(tags)
-    return [t for t in tags if case["classes"][str(case["tagcls"][str(t)])]["kind"] == "A"]
+    return [t for t in tags if case["classes"][str(case["tagcls"][str(t)])]["kind"] in ("A", "a")]
 
 
 def oracle_event(case, slots, op, pending):
@@ -422,7 +429,7 @@ def new_case(rng, shape, reversed_, kinds=None, nclasses=None, dup_classes=False
     ncls = nclasses or max(1, len(alltags))
     if dup_classes and len(alltags) > 1:
         ncls = rng.randint(1, max(1, len(alltags) - 1))
-    classes = {str(c): {"kind": rng.choice("AAB"), "iface": (None if rng.random() < .35 else 100 + c),
+    classes = {str(c): {"kind": rng.choice("AABab"), "iface": (None if rng.random() < .35 else 100 + c),
                         "ret": rng.randint(0, 2)} for c in range(1, ncls + 1)}
     if dup_classes:
         tagcls = {str(t): rng.randint(1, ncls) for t in alltags}
